@@ -3,6 +3,9 @@ package props
 
 import (
 	_ "verif/props/c03"
+	_ "verif/props/c04"
+	_ "verif/props/c08"
+	_ "verif/props/c14"
 	_ "verif/props/c15"
 	_ "verif/props/c16"
 	_ "verif/props/c17"
